@@ -605,6 +605,16 @@ def enumerate_exp_positions(case, r):
 
 # =========================================================================== legacy (stateless) interface
 
+def _ulp_close(a, b):
+    """Equality of two chains produced by two separately constructed legacy samplers on the same tape, up to rounding noise.
+    The second run exists to reconstruct the states as they were at hand-over, and the property does not promise that two
+    sampler objects agree to the last bit: in about one fresh process out of 30 (never in forks of one process) one proposal
+    of legacy CWMH.sample_adapt differs by 1 ulp between the first and every later run, depending on where the allocator
+    put the arrays (DESIGN 10.4).  Anything a defect produces is many orders of magnitude above this tolerance."""
+    a, b = np.asarray(a, float), np.asarray(b, float)
+    return a.shape == b.shape and bool(np.allclose(a, b, rtol=1e-9, atol=1e-13, equal_nan=True))
+
+
 class LegacyRun:
     def __init__(self, ctx, case):
         self.ctx, self.case, self.sc = ctx, case, case["scenario"]
@@ -670,8 +680,8 @@ class LegacyRun:
         self.alias_shift = None
         if len(cblog2) == N + Nb - 1:
             by_idx = {c[0]: c[2] for c in cblog2}
-            self.alias_shift = bool(all(bit_equal(chain[:, t], by_idx.get(t + Nb + 1, np.nan)) for t in range(N - 1))
-                                    and bit_equal(chain[:, N - 1], by_idx.get(N + Nb - 1, np.nan)))
+            self.alias_shift = bool(all(_ulp_close(chain[:, t], by_idx.get(t + Nb + 1, np.nan)) for t in range(N - 1))
+                                    and _ulp_close(chain[:, N - 1], by_idx.get(N + Nb - 1, np.nan)))
         if Nb == 0 and not bit_equal(chain[:, 0], x0):
             ctx.violate(PROP, "starts_with_initial_point", self._sig())
         # ---- 4 callback
@@ -699,8 +709,11 @@ class LegacyRun:
                             ctx.violate(PROP, "consecutive", self._sig(), index=t)
                             break
         # ---- repeatability + earlier result untouched by a later call
-        if not np.array_equal(c2, chain, equal_nan=True):
+        # (two separately constructed samplers: compared up to rounding noise, see _ulp_close)
+        if not _ulp_close(c2, chain):
             ctx.violate(PROP, "same_tape_same_chain", self._sig())
+        elif not np.array_equal(c2, chain, equal_nan=True):
+            ctx.count("second_run_differs_in_last_bits")
         s.x0 = chain[:, -1].copy()
         getattr(s, method)(max(N, 10 if method == "sample_adapt" else 2), Nb)
         if not np.array_equal(np.array(out.samples, float).reshape(first_copy.shape), first_copy, equal_nan=True):
